@@ -351,6 +351,11 @@ impl Prop for CallBound {
         tier.pick(300_000, 5_000_000)
     }
     fn run(&self, case: &BoundCase, rec: &mut Rec) -> CheckResult {
+        // the bounds are stated in candidate sets, so they hold whichever models the backend returns
+        let (_scope, chosen) = satwrap::ChoiceScope::for_case(case);
+        if chosen {
+            rec.class("sat-backend-returns-chosen-models");
+        }
         match case {
             BoundCase::Static(pc) => self.stat(pc, rec),
             BoundCase::DynamicPr(dc) => self.dynpr(dc, rec),
